@@ -198,7 +198,8 @@ func c18Retry() {
 	long := simrt.Chance(1, 10)
 	var rate time.Duration
 	if long {
-		rate = []time.Duration{1, 7, time.Microsecond, time.Millisecond}[simrt.Draw(4)]
+		// (3s: the largest delay, (2^31-1) x 3s, still fits a Duration; a bound computed one bit too early does not)
+		rate = []time.Duration{1, 7, time.Microsecond, time.Millisecond, 3 * time.Second}[simrt.Draw(5)]
 	} else {
 		rate = []time.Duration{-5, 0, 1, 7, time.Microsecond, time.Millisecond}[simrt.Draw(6)]
 	}
@@ -214,6 +215,12 @@ func c18Retry() {
 	neverEnds := false
 	for i := range invs {
 		invs[i] = &c18Inv{n: i, script: c18DrawScript(long && i == 0), inner: fmt.Errorf("inner error of invocation %d", i)}
+		if simrt.Chance(1, 3) {
+			// the error handed to FatalError wraps another one itself: it is returned as it is, its own
+			// wrapping is not the library's to remove
+			invs[i].inner = fmt.Errorf("inner error of invocation %d: %w", i, errors.New("its cause"))
+			simrt.Probe("fatal_payload_wraps_an_error")
+		}
 		if invs[i].script.end < 0 {
 			neverEnds = true
 		}
@@ -548,8 +555,20 @@ func c18Retry() {
 			}
 		}
 		if d >= 1<<61 {
-			simrt.Failf("C18.stuck", "the retry function has not returned with every timer fired")
-			return
+			// waits of this run exceed what the doubling window reaches (rates of seconds after 30+
+			// failures): let every remaining timer fire
+			simrt.Quiesce(-1)
+			if simrt.Failed() {
+				return
+			}
+			if !rDone {
+				if c := st.cur; c != nil && c.inOp {
+					continue // an operation call is in flight (it sleeps): not the library's wait
+				}
+				simrt.Failf("C18.stuck", "the retry function has not returned with every timer fired")
+				return
+			}
+			break
 		}
 		d *= 2
 	}
